@@ -263,7 +263,7 @@ impl Run {
             Op::Rm(n) => { self.g.remove_node(nid(self, *n)); "ok".into() }
             Op::Enc => match self.g.encode(EncodeOptions { define_components: true, validate: true, processor: None }) {
                 Ok(_) => "enc:ok".into(),
-                Err(EncodeError::ValidationFailure { source }) => format!("enc:E:ValidationFailure({})", source.to_string().replace([';', '|'], " ")),
+                Err(EncodeError::ValidationFailure { source }) => format!("enc:E:ValidationFailure({})", source.to_string().replace([';', '|', '\n', '\r'], " ")),
                 Err(EncodeError::GraphContainsCycle { .. }) => "enc:E:GraphContainsCycle".into(),
                 Err(EncodeError::ImplicitImportConflict { .. }) => "enc:E:ImplicitImportConflict".into(),
                 Err(EncodeError::ImportTypeMergeConflict { .. }) => "enc:E:ImportTypeMergeConflict".into() },
@@ -380,7 +380,7 @@ fn main() {
     for (i, k) in u.kinds.iter().enumerate() { writeln!(co, "U kindtext {i} {k}").unwrap(); writeln!(io, "U kindtext {i} {k}").unwrap(); }
     let mut emit = |ops: &[Op], obs: &[String]| {
         writeln!(co, "H {}", ops.iter().map(show_op).collect::<Vec<_>>().join(";")).unwrap();
-        writeln!(io, "{}", obs.join(";;")).unwrap();
+        writeln!(io, "{}", obs.join(";;").replace(['\n', '\r'], " ")).unwrap();
     };
     let exec = |ops: &[Op]| -> Vec<String> {
         let mut run = Run::new(); let mut obs = Vec::new();
